@@ -21,7 +21,9 @@ RULE = ("Hypothesis draws a tissue (Voronoi/Moebius, whole, sub-tissue, or a 'fl
         "inversion path); distinct = fingerprint of drawn parameters.")
 ASSUMPTIONS = [
     "KKT conditions are necessary and sufficient for the convex problem min ||Mx-b||^2, x>=0 (tau = 1e-7*||M||^2*max(1,||x||))",
-    "lmfit ('lsq') is judged by objective gap <= 2e-2 relative (+1e-8*||b||^2) against a KKT-certified scipy.nnls reference (measured up to 1.4e-3 when a tension sits on its bound)",
+    "lmfit ('lsq') is judged by objective gap <= 1e-3 * f_ref + 1e-7*||b||^2 against a KKT-certified scipy.nnls "
+    "reference; runs started from a strictly positive vector in which a parameter sticks to the bound 0 although the "
+    "optimum has it positive are known finding D27 (decided by that predicate, counted)",
     "'lsq_linear' is only judged on consistent (equilibrium, static) systems, as the property states",
     "method='fix_stress' is known finding D5 (always raises) and is excluded from generation",
     "hook record produced by FORSYS_VERIF=1 is cross-checked against fm.matrix and set_velocity_matrix",
